@@ -342,6 +342,9 @@ class Problem:
         self.check_dyadic()
         cplx = any(b != 0 for _, b in self.E_num)
         ev = np.array([complex(float(a), float(b)) if cplx else float(a) for a, b in self.E_num])
+        if self.cfg.get("int_h0"):
+            assert not cplx and all(float(x).is_integer() for x in ev), "int_h0 needs an integer spectrum"
+            ev = ev.astype(int)  # integer-typed H_0 (np.diag([0, 2, 5])) is legal input
         h0_blocks = [np.diag(ev[self.off[i] : self.off[i + 1]]) for i in range(self.nb)]
         H = self._make_H_series(h0_blocks)
         return block_diagonalize(H, hermitian=self.hermitian, **self.fd_kwarg())
@@ -438,17 +441,17 @@ def evaluate(x, model):
 # numeric replay through the public API (plain numpy; no vf arithmetic)
 
 
-def numeric_series(sizes, E, terms, hermitian=True, fd=None, callback=False):
+def numeric_series(sizes, E, terms, hermitian=True, fd=None, callback=False, int_h0=False):
     """The three BlockSeries returned by the real block_diagonalize for float/complex numpy inputs."""
-    return _numeric(sizes, E, terms, hermitian, fd, 0, callback, series_only=True)
+    return _numeric(sizes, E, terms, hermitian, fd, 0, callback, series_only=True, int_h0=int_h0)
 
 
-def numeric_run(sizes, E, terms, hermitian=True, fd=None, max_order=2, callback=False):
+def numeric_run(sizes, E, terms, hermitian=True, fd=None, max_order=2, callback=False, int_h0=False):
     """Run the real block_diagonalize with float/complex numpy inputs; returns dense dicts of ndarray."""
-    return _numeric(sizes, E, terms, hermitian, fd, max_order, callback)
+    return _numeric(sizes, E, terms, hermitian, fd, max_order, callback, int_h0=int_h0)
 
 
-def _numeric(sizes, E, terms, hermitian, fd, max_order, callback, series_only=False):
+def _numeric(sizes, E, terms, hermitian, fd, max_order, callback, series_only=False, int_h0=False):
     from pymablock import block_diagonalize
     from pymablock.series import BlockSeries, one, zero
 
@@ -460,6 +463,8 @@ def _numeric(sizes, E, terms, hermitian, fd, max_order, callback, series_only=Fa
     E = np.array(E, dtype=complex)
     if np.allclose(E.imag, 0):
         E = E.real
+    if int_h0:
+        E = E.astype(int)
     h0_blocks = [np.diag(E[off[i] : off[i + 1]]) for i in range(nb)]
 
     def Heval(i, j, *order):
